@@ -88,6 +88,31 @@ func makeRoot(ver, ctor string, num, den *big.Int) Num {
 	panic("unknown ctor " + ctor)
 }
 
+// exerciseViews reads a bounded view of the Number backward and forward before its digits are observed: reads
+// through views and other read paths leave the Number's own digits as they are.
+func exerciseViews(x Num, n int) {
+	k := n/2 + 1
+	switch y := x.(type) {
+	case *v1.Number:
+		it := y.WithSignificant(k).Reverse()
+		for d := it(); d != -1; d = it() {
+		}
+		y.WithSignificant(k).NumDigits()
+		fr := y.WithSignificant(k).FullReverse()
+		for _, ok := fr(); ok; _, ok = fr() {
+		}
+	case *v2.Number:
+		it := y.WithSignificant(k).Reverse()
+		for _, ok := it(); ok; _, ok = it() {
+		}
+	case v3.Number:
+		for range y.WithSignificant(k).Backward() {
+		}
+		for range y.WithStart(1).WithEnd(k).Values() {
+		}
+	}
+}
+
 // observeDigits: "Z" for the zero number, else "N exponent k d1..dk ended", reading positions 0..n-1 with At.
 func observeDigits(x Num, n int) []string {
 	var t toks
@@ -99,6 +124,9 @@ func observeDigits(x Num, n int) []string {
 	}
 	t.s("N")
 	t.i(x.Exponent())
+	if n%3 == 1 {
+		exerciseViews(x, n)
+	}
 	var ds []int
 	ended := false
 	for p := 0; p < n; p++ {
